@@ -1515,6 +1515,60 @@ def known_entry(kid):
     return None
 
 
+def shrink_tie_case(P, prop_id, kind, args, prof, work, budget_s=12.0, max_runs=80):
+    """Minimise a single case on which model and implementation differ (delta debugging on the bytes of the
+    last argument: deliveries are merged first, then byte ranges removed), keeping 'they still differ'.
+    Used only on the violation path; returns (args, runs) -- the original args when nothing smaller fails."""
+    t0 = time.time()
+    runs = [0]
+
+    def differs(cand_args):
+        if runs[0] >= max_runs or time.time() - t0 > budget_s:
+            return False
+        runs[0] += 1
+        c = Ctx(prop_id, "quick", 0)
+        cid = c.add(kind, cand_args)
+        try:
+            impl, model = vlib.run_sides(os.path.join(work, "shrink"), c.cases, prof)
+            return P.project(c, cid, impl[cid][0]) != P.project(c, cid, model[cid][0])
+        except Exception:
+            return False
+
+    args = list(args)
+    last = args[-1]
+    if kind in ("req", "resp"):
+        parts = [bytes.fromhex(x) for x in last.split(",")] if last not in ("", ".") else [b""]
+    elif kind in ("dec", "txt", "pipereq", "piperesp", "rtreq", "rtresp"):
+        parts = [bytes.fromhex(last)] if last not in ("", ".") else [b""]
+    else:
+        return args, 0
+    enc = (lambda ps: dels(ps)) if kind in ("req", "resp") else (lambda ps: hx(b"".join(ps)))
+    # merge deliveries
+    if len(parts) > 1 and differs(args[:-1] + [enc([b"".join(parts)])]):
+        parts = [b"".join(parts)]
+    else:
+        i = 0
+        while i + 1 < len(parts):
+            cand = parts[:i] + [parts[i] + parts[i + 1]] + parts[i + 2:]
+            if differs(args[:-1] + [enc(cand)]):
+                parts = cand
+            else:
+                i += 1
+    # remove byte ranges inside each delivery
+    for k in range(len(parts)):
+        n = max(1, len(parts[k]) // 2)
+        while n >= 1 and runs[0] < max_runs and time.time() - t0 <= budget_s:
+            i, changed = 0, False
+            while i < len(parts[k]):
+                cand = parts[:k] + [parts[k][:i] + parts[k][i + n:]] + parts[k + 1:]
+                if differs(args[:-1] + [enc(cand)]):
+                    parts, changed = cand, True
+                else:
+                    i += n
+            n = n // 2 if not changed or n > 1 else 0
+    return args[:-1] + [enc(parts)], runs[0]
+
+
 def run(prop_id, tier, seed, replay=None):
     t0 = time.time()
     P = PROPS[prop_id]()
@@ -1549,6 +1603,8 @@ def run(prop_id, tier, seed, replay=None):
         rp = json.load(open(replay))
         for c in rp["cases"]:
             ctx.add(c["kind"], c["args"], **{k: v for k, v in c.get("meta", {}).items()})
+        if rp.get("minimized"):
+            ctx.add(rp["minimized"]["kind"], rp["minimized"]["args"])
     else:
         corpus = os.path.join(ROOT, "corpus", prop_id)
         if os.path.isdir(corpus):
@@ -1614,7 +1670,12 @@ def run(prop_id, tier, seed, replay=None):
     def case_dump(ids):
         return [{"id": i, "kind": ctx.meta[i]["kind"], "args": ctx.meta[i]["args"]} for i in ids]
 
+    def size_of(entry):
+        return sum(len(a) for i in entry[1] for a in ctx.meta[i]["args"])
+
     violation = None
+    rel_bad.sort(key=size_of)
+    tie_bad.sort(key=size_of)
     if rel_bad:
         prof, ids, msg = rel_bad[0]
         violation = {"kind": "property-fails-on-implementation", "profile": prof, "message": msg, "cases": case_dump(ids),
@@ -1627,6 +1688,11 @@ def run(prop_id, tier, seed, replay=None):
                               if P.spec_type else
                               "the theorems of this property are about the model; on this case the code no longer behaves like "
                               "the model, so they no longer transfer; the property's own relation found no failing input")}
+        if not replay and len(ids) == 1:
+            small, nruns = shrink_tie_case(P, prop_id, ctx.meta[ids[0]]["kind"], ctx.meta[ids[0]]["args"], prof, work)
+            if small != ctx.meta[ids[0]]["args"]:
+                violation["minimized"] = {"kind": ctx.meta[ids[0]]["kind"], "args": small, "runs": nruns,
+                                          "note": "smaller input on which model and implementation still differ (delta debugging)"}
     elif not proof["ok"]:
         violation = {"kind": "proof-broken", "message": proof["log"][-1500:], "cases": [], "theorems": proof["theorems"], "found": False}
 
